@@ -77,7 +77,7 @@ WORLD = {
                 extent_m=[300, 800, 1500]),
     "C19": dict(p_schedules=0.25, nv=(1, 6), ns=(1, 3), nb=(1, 2), nr=(5, 30), p_prices=0.5, p_rate=1.0, soc=[0.02, 0.1, 0.3, 0.6],
                 steps=[60, 60, 120, 300, 30, 45, 7], starts=[0, 86400 - 600, 86400 - 1800, 1234, 3600 * 8, 1577836800 + 86400 - 900]),
-    "C20": dict(nv=(1, 6), ns=(0, 2), nb=(1, 2), nr=(0, 30), p_schedules=1.0, p_human=0.8, nsteps=(60, 300),
+    "C20": dict(nv=(1, 6), ns=(0, 2), nb=(1, 2), nr=(0, 30), p_schedules=1.0, p_human=0.8, nsteps=(60, 300), p_fleets=0.35,
                 steps=[900, 900, 600, 300, 61, 7, 120], starts=[0, 3600 * 8, 86400 - 600, 1234, 17 * 3600 + 13, 2 * 86400 + 23 * 3600, 1577836800 + 5 * 3600 + 1200, 1583020800 + 22 * 3600]),
 }
 WORLD["C15"] = dict(nv=(0, 5), ns=(0, 3), nb=(0, 2), nr=(3, 30), nsteps=(8, 40), p_prices=0.5, p_price_full=1.0, p_schedules=0.3,
@@ -189,6 +189,12 @@ def make_plan(prop, seed):
         mix = r.choice(["both", "both", "builtin"])
     elif prop == "C20":
         mix = "builtin"
+        if r.random() < 0.4:
+            # parked and charging-at-home vehicles dispatchable (as in the shipped manhattan scenario): an off-shift driver at home
+            # issues no instruction of its own that would mask what the dispatcher decides
+            spec["dispatcher"]["valid_dispatch_states"] = r.choice([["idle", "repositioning", "reservebase", "chargingbase"],
+                                                                     ["idle", "repositioning", "reservebase"],
+                                                                     ["idle", "repositioning", "reservebase", "chargingbase", "dispatchbase"]])
     elif prop == "C15":
         mix = r.choice(["default", "builtin", "builtin", "both", "both"])
         rs["lazy"] = r.random() < 0.5
